@@ -4,6 +4,7 @@ describes what the step does to the row order: 'keep' | 'sort' | 'destroy'."""
 
 from __future__ import annotations
 
+import datetime as _dt
 import itertools
 import warnings
 
@@ -17,7 +18,9 @@ OK_REFUSALS = (pdt.errors.SubqueryError, pdt.errors.NotSupportedError)
 
 def base_frames(kind="mixed"):
     if kind == "mixed":
-        t = pl.DataFrame({"a": [3, 1, 2, 2, None, 5], "b": [10.5, None, 30.0, 30.0, 50.5, None], "s": ["x", "y", None, "y", "w", "x"], "f": [True, False, None, True, False, True], "h": [1, 2, 3, 4, 5, 6]})
+        t = pl.DataFrame({"a": [3, 1, 2, 2, None, 5], "b": [10.5, None, 30.0, 30.0, 50.5, None], "s": ["x", "y", None, "y", "w", "x"], "f": [True, False, None, True, False, True], "h": [1, 2, 3, 4, 5, 6],
+                          "dt": pl.Series([_dt.datetime(2020, 2, 29, 13, 14, 15), None, _dt.datetime(9999, 12, 31, 23, 59, 59), _dt.datetime(1000, 1, 1), _dt.datetime(1970, 1, 1), _dt.datetime(2262, 4, 12)], dtype=pl.Datetime("us")),
+                          "d": pl.Series([_dt.date(2020, 2, 29), _dt.date(9999, 12, 31), None, _dt.date(1, 1, 1), _dt.date(1970, 1, 1), _dt.date(1999, 12, 31)], dtype=pl.Date)})
         u = pl.DataFrame({"a": [2, 2, 9, None], "c": [100, 200, 300, 400], "s": ["p", "q", "r", None], "h": [7, 8, 9, 10]})
     elif kind == "empty":
         t = pl.DataFrame({"a": [], "b": [], "s": [], "f": [], "h": []}, schema={"a": pl.Int64, "b": pl.Float64, "s": pl.String, "f": pl.Boolean, "h": pl.Int64})
@@ -165,7 +168,8 @@ def expr_steps():
     add("compare/bool", lambda x, c: x >> pdt.mutate(w=(x.a > 2) & x.f, v=(x.a <= 2) | x.f, u=~x.f, e=x.a == x.h, ne=x.a != x.h, i=x.a.is_in(1, 2, 5), i2=x.h.is_in(x.a, 7), i3=x.a.is_in(1, None), n=x.a.is_null(), nn=x.s.is_not_null(), x_=x.f ^ (x.a > 1)), needs=("a", "f", "h", "s"))
     add("string", lambda x, c: x >> pdt.mutate(w=x.s + "z", v=x.s.str.len(), u=x.s.str.upper(), st=x.s.str.starts_with("k"), ct=x.s.str.contains("1"), sl=x.s.str.slice(1, 2), rp=x.s.str.replace_all("k", "qq")), needs=("s",))
     add("cast", lambda x, c: x >> pdt.mutate(w=x.a.cast(pdt.Float64()), v=x.h.cast(pdt.String()), u=x.f.cast(pdt.Int64()), b_=x.b.cast(pdt.Int64())), needs=("a", "b", "f", "h"))
-    add("min/max horizontal", lambda x, c: x >> pdt.mutate(w=pdt.max(x.a, x.h), v=pdt.min(x.a, x.h, 3)), needs=("a", "h"))
+    add("min/max horizontal", lambda x, c: x >> pdt.mutate(w=pdt.max(x.a, x.h), v=pdt.min(x.a, x.h, 3), w4=pdt.max(x.h, x.a, 3, x.h - 4), v4=pdt.min(x.a + 5, x.h + 5, x.h, x.a + 1), v5=pdt.min(x.h, 9, x.a, x.h * 2, 4)), needs=("a", "h"))
+    add("reflected operators", lambda x, c: x >> pdt.mutate(r1="x_" + x.s, r2=3 - x.a, r3=2 / (x.b + 100), r4=17 // (x.h + 1), r5=17 % (x.h + 1), r6=2 * x.a, r7=10 + x.a, r8=True & x.f, r9=False | x.f), needs=("a", "b", "s", "f", "h"))
     add("filter(case)", lambda x, c: x >> pdt.filter(pdt.when(x.f).then(x.a > 1).otherwise(x.h < 4)), needs=("a", "f", "h"))
     add("filter(is_in)", lambda x, c: x >> pdt.filter(x.a.is_in(2, 3, None) | x.s.is_null()), needs=("a", "s"))
     add("arrange(s.desc.nf,h)", lambda x, c: x >> pdt.arrange(x.s.descending().nulls_first(), x.h), effect="sort", needs=("s", "h"), uniq=True)
@@ -199,7 +203,7 @@ def hides_group_col(pipeline):
 
 
 FRAGMENT = {"filter(a>1)", "filter(b.is_null()|f)", "mutate(x=a+h)", "mutate(a=a*2,z=a)", "mutate(k=when)", "select(h,a)", "drop(s)", "rename(a<->b)", "arrange(a.nl,h)", "arrange(h.desc)", "slice_head(3,1)",
-            "group_by(a)", "summarize(n,m)", "summarize(sa)", "id", "case/coalesce", "arith", "compare/bool", "string", "cast", "min/max horizontal", "filter(case)", "filter(is_in)", "arrange(s.desc.nf,h)", "arrange(b.nl,a.desc.nf,h.desc)"}
+            "group_by(a)", "summarize(n,m)", "summarize(sa)", "id", "case/coalesce", "arith", "compare/bool", "string", "cast", "min/max horizontal", "reflected operators", "filter(case)", "filter(is_in)", "arrange(s.desc.nf,h)", "arrange(b.nl,a.desc.nf,h.desc)"}
 
 
 def in_fragment(pipeline):
